@@ -242,7 +242,8 @@ def run_history(case, ctx: Ctx) -> None:
                     if ty != want_ty:
                         ctx.fail("C09|info.tables|wrong-type", f"{k}: {ty}")
                     if mine[k].kind == "TABLE" and cm != mine[k].comment:
-                        if cm is not None and cm in ghost_comments.get(k, ()) and mine[k].comment is None:
+                        if cm is not None and cm in ghost_comments.get(k, ()) and (mine[k].comment is None or "rename" in mine[k].how.split("+")):
+                            # (a renamed table loses its own comment - listed - and then shows whatever an earlier holder of the new name left behind)
                             mode = "comment-of-earlier-incarnation"  # the side table was not cleaned when the name was dropped/replaced/renamed
                         elif cm is None and "rename" in mine[k].how.split("+"):
                             mode = "comment-lost-by-rename"
